@@ -63,6 +63,8 @@ THEOREMS = [
     'C13_fill_geometry_den_tr',
     'C13_fill_flags_lockstep',
     'C13_options_same_geometry',
+    'C13_merged_surfaces_equal_senses',
+    'C13_options_same_written_linked',
 ]
 TRUSTED = [
     'hand-written model coq/C13/Model.v (modelled, tied by execution only)',
